@@ -363,3 +363,132 @@ func RunNestedTx(r sim.Src, mons []*sim.Mon, keepLog bool) *sim.World {
 	s.W.Finish()
 	return s.W
 }
+
+// RunNestedRecovery explores what happens when a recovery message full of change view requests is
+// processed by a node that holds cached future-view traffic: the first requests may complete a view
+// change, the cached proposal and responses are replayed inside that nested call (the node may respond,
+// pre-commit or commit there), and the remaining requests of the same message are processed afterwards.
+// Counts, views, orders and what is cached are drawn.
+func RunNestedRecovery(r sim.Src, mons []*sim.Mon, keepLog bool) *sim.World {
+	n := 4 + pick(r, "N", 15, 10, 10, 65)
+	self := r.Intn("self", n)
+	base := make([]int, n)
+	for i := range base {
+		base[i] = i
+	}
+	amev := int64(-1)
+	if r.Intn("amev", 3) == 0 {
+		amev = 0
+	}
+	cfg := sim.Cfg{IDs: n, Validators: func(uint32) []int { return base }, ValDesc: fmt.Sprintf("const[0..%d]", n-1), StartTip: uint32(r.Intn("tip", 40)),
+		AMEVHeight: amev, TimePerBlock: time.Second, TsIncrement: 1_000_000, Epoch: epoch0}
+	s := sim.NewSolo(cfg, r, self, false, mons, keepLog)
+	nd := s.N
+	nd.Start()
+	M := n - (n-1)/3
+	others := s.Others()
+	perm := func(label string) []int {
+		o := append([]int(nil), others...)
+		for i := len(o) - 1; i > 0; i-- {
+			j := r.Intn(label, i+1)
+			o[i], o[j] = o[j], o[i]
+		}
+		return o
+	}
+	// A: cached traffic of view 1 (and sometimes view 2)
+	props := map[byte]sim.Payload{}
+	for _, fv := range []byte{1, 2} {
+		if r.Intn("cacheview", 3) == 0 && fv == 2 {
+			continue
+		}
+		if s.Primary(fv) == nd.D.MyIndex || r.Intn("cacheprop", 4) == 0 {
+			continue
+		}
+		p := s.Proposal(fv, s.NextTs(), uint64(20+fv))
+		props[fv] = p
+		nd.Receive(p)
+		k := r.Intn("cacheresp", n-1)
+		for _, j := range perm("cacheorder")[:min(k, len(others))] {
+			if j != s.Primary(fv) {
+				nd.Receive(s.Response(j, fv, p.Hash()))
+			}
+		}
+		kc := r.Intn("cachecommit", 3)
+		for _, j := range perm("cachecorder")[:min(kc, len(others))] {
+			pc := s.Commit(j, p)
+			if amev >= 0 && r.Intn("pc", 2) == 0 {
+				pc = s.PreCommit(j, p)
+			}
+			nd.Receive(pc)
+		}
+	}
+	// B: some change views for view 1 delivered directly
+	direct := r.Intn("directcv", M)
+	for _, j := range perm("directorder")[:min(direct, len(others))] {
+		nd.Receive(s.CV(j, 0, 1))
+	}
+	// C: a recovery message tagged with view w carrying a drawn list of change views
+	w := byte(1 + r.Intn("wview", 3))
+	var emb []sim.Payload
+	groups := 1 + r.Intn("groups", 3)
+	for g := 0; g < groups; g++ {
+		ov := byte(r.Intn("origview", int(w)))
+		cnt := 1 + r.Intn("groupcnt", n-1)
+		for _, j := range perm("grouporder")[:min(cnt, len(others))] {
+			emb = append(emb, s.CV(j, ov, ov+1+byte(r.Intn("nvjump", 2))))
+		}
+	}
+	if r.Intn("sortviews", 2) == 0 { // honest senders pack by validator index; also try ascending target views
+		for i := 1; i < len(emb); i++ {
+			for j := i; j > 0 && emb[j].Body.(*vt.ChangeView).NewView < emb[j-1].Body.(*vt.ChangeView).NewView; j-- {
+				emb[j], emb[j-1] = emb[j-1], emb[j]
+			}
+		}
+	}
+	sender := others[r.Intn("rmsender", len(others))]
+	nd.Receive(s.Recovery(sender, w, emb...))
+	if nd.D.ViewNumber > 0 {
+		s.W.Stat("nested_recovery_view_changed")
+	}
+	if nd.D.CommitSent() || nd.D.PreCommitSent() {
+		s.W.Stat("nested_recovery_locked")
+	}
+	// D: aftermath
+	for i := 0; i < 2+r.Intn("after", 6) && len(s.W.Viols) == 0 && !nd.Crashed && !nd.D.BlockSent(); i++ {
+		v := nd.D.ViewNumber
+		switch r.Intn("afterkind", 6) {
+		case 0:
+			if nd.Timer.Pending {
+				s.Fire()
+			}
+		case 1:
+			if !nd.D.IsPrimary() && !nd.D.RequestSentOrReceived() {
+				if p, ok := props[v]; ok {
+					nd.Receive(p)
+				} else {
+					nd.Receive(s.Proposal(v, s.NextTs(), uint64(30+i)))
+				}
+			}
+		case 2:
+			if pp := nd.D.PreparationPayloads[nd.D.PrimaryIndex]; pp != nil {
+				j := others[r.Intn("respfrom", len(others))]
+				if j != int(nd.D.PrimaryIndex) {
+					nd.Receive(s.Response(j, v, pp.Hash()))
+				}
+			}
+		case 3:
+			nd.Receive(s.CV(others[r.Intn("cvfrom", len(others))], v, v+1))
+		case 4:
+			nd.Receive(s.RecoveryRequest(others[r.Intn("rqfrom", len(others))], v))
+		default:
+			var cvs []sim.Payload
+			for _, j := range perm("again")[:min(M, len(others))] {
+				cvs = append(cvs, s.CV(j, v, v+1))
+			}
+			nd.Receive(s.Recovery(others[0], v+1, cvs...))
+		}
+	}
+	s.W.Stat("nested_recovery")
+	s.W.Finish()
+	return s.W
+}
